@@ -291,9 +291,28 @@ def run(ctx):
                 judge_bits_api(ctx, {"bits": bits})
     finally:
         inst.remove()
+    # K+3 distinct requests per harvested threshold K, then a second look at the earliest answers (vpkg.longrun.ask_again)
+    from .. import longrun
+    longrun.histories(ctx, "history", "C04", history_specs(), first_job=2)
+    ctx.extra["harvested_thresholds"] = longrun.thresholds()
+
+
+def history_specs():
+    import btc_hd_wallet.bip39 as b39
+    import hashlib as _hl
+
+    def ent(j):
+        return _hl.sha256(b"vp-c04-%d" % j).digest()[:(16, 20, 24, 28, 32)[j % 5]]
+    return [("mnemonic_from_entropy", b39.mnemonic_from_entropy, lambda j: (ent(j).hex(), rb39.mnemonic(ent(j))))]
 
 
 def replay(ctx, monitor, case):
+    if monitor == "history":
+        from .. import longrun
+        for name, fn, make in history_specs():
+            if name == case["function"]:
+                longrun.ask_again(ctx, "history", "C04", name, fn, make, case["n"], case["k"])
+        return
     inst = install_probes(ctx)
     try:
         if monitor == "encode":
